@@ -60,9 +60,9 @@ func cacheJob(name string, limit int, jit string, thorough bool) *job {
 	if nkeys < 2 {
 		nkeys = 2
 	}
-	depth := map[int]int{0: 6, 1: 6, 2: 6, 3: 5}[limit]
+	depth := map[int]int{0: 5, 1: 6, 2: 5, 3: 5}[limit]
 	if thorough {
-		depth += 2
+		depth = map[int]int{0: 7, 1: 7, 2: 6, 3: 6}[limit]
 	}
 	advs := []int64{1, 2, 5}
 	j := &job{name: name, pbfs: true, depth: depth, nontriv: hasMutation("set", "swe", "take")}
@@ -75,7 +75,7 @@ func cacheJob(name string, limit int, jit string, thorough bool) *job {
 			}
 		}
 		var out []Op
-		for _, k := range []string{"set", "swe", "get", "del", "take", "takeerr"} {
+		for _, k := range []string{"take", "takeerr", "set", "swe", "get", "del"} { // take first: a loading Take and a Set reach the same state, let Take represent it
 			for i := 1; i <= nkeys && i <= used+1; i++ {
 				out = append(out, Op{K: k, I: i})
 			}
@@ -151,19 +151,33 @@ func cacheRun(limit, nkeys int, jit string, path []Op, verbose bool) result {
 			}
 			return "below-limit"
 		}
+		ev := map[string]bool{}
+		defer func() {
+			for t := range ev {
+				res.tags = append(res.tags, t)
+			}
+			sort.Strings(res.tags)
+		}()
 		fail := func(what, msg string) {
 			res.class = "cache-" + what
-			res.err = msg + fmt.Sprintf("; history %v", path)
+			res.err = msg + fmt.Sprintf(" (cache %s); history %v", shape(), path)
 		}
 		// model of Set: returns the key the reference evicts ("" if none)
 		modelSet := func(k, v string, d time.Duration) string {
 			lo, hi := bracket(d)
-			_, existed := ref[k]
+			old, existed := ref[k]
+			if existed {
+				ev["timer-moved"] = true
+				if tick-old.setTick > 0 {
+					ev["timer-moved-after-ticks"] = true
+				}
+			}
 			ref[k] = &centry{val: v, setTick: tick, lo: lo, hi: hi}
 			touch(k)
 			if !existed && limit > 0 && len(ref) > limit {
 				victim := lru[len(lru)-1]
 				drop(victim)
+				ev["evicted"] = true
 				return victim
 			}
 			return ""
@@ -182,7 +196,7 @@ func cacheRun(limit, nkeys int, jit string, path []Op, verbose bool) result {
 				_, present := view.Data[k]
 				switch {
 				case age < e.lo && !present:
-					what := "entry-lost:" + shape()
+					what := "entry-lost"
 					if evicted != "" {
 						what = "wrong-eviction-victim"
 					} else if age > 0 {
@@ -195,6 +209,10 @@ func cacheRun(limit, nkeys int, jit string, path []Op, verbose bool) result {
 					return false
 				case !present:
 					drop(k) // expired inside its bracket
+					ev["expired"] = true
+					if age == e.lo && e.lo < e.hi {
+						ev["expired-at-lower-bracket"] = true
+					}
 				}
 			}
 			if limit > 0 && len(view.Data) > limit {
@@ -239,6 +257,9 @@ func cacheRun(limit, nkeys int, jit string, path []Op, verbose bool) result {
 				return false
 			}
 			if ok {
+				if len(lru) > 0 && lru[0] != k {
+					ev["recency-refreshed-by-read"] = true
+				}
 				touch(k)
 			}
 			return true
@@ -292,6 +313,10 @@ func cacheRun(limit, nkeys int, jit string, path []Op, verbose bool) result {
 						fail("take-hit-wrong", fmt.Sprintf("%s: Take(%s)=(%v,%v) on a hit, latest value %s", step, k, v, err, e.val))
 						return
 					}
+					if len(lru) > 0 && lru[0] != k {
+						ev["recency-refreshed-by-read"] = true
+					}
+					ev["take-hit"] = true
 					touch(k)
 				case op.K == "takeerr":
 					if err != errLoader || v != nil {
@@ -304,6 +329,7 @@ func cacheRun(limit, nkeys int, jit string, path []Op, verbose bool) result {
 						return
 					}
 					nset[k]++
+					ev["take-miss-loaded"] = true
 					evicted = modelSet(k, nv, cacheDefault)
 				}
 			case "adv":
@@ -313,6 +339,11 @@ func cacheRun(limit, nkeys int, jit string, path []Op, verbose bool) result {
 			vsched.Quiesce()
 			if !sync(step, evicted) {
 				return
+			}
+		}
+		for _, e := range ref {
+			if a := tick - e.setTick; a >= e.lo && a < e.hi {
+				ev["alive-inside-bracket"] = true
 			}
 		}
 		view := collection.VerifC16Cache(c)
